@@ -35,7 +35,7 @@ if __name__ == "__main__":
                 continue
             if isinstance(res, str):
                 print(d, res); continue
-            if "/wt/N" in d or "/wt/B" in d or "/wt/M" in d or "/wt/P" in d or "/wt/Q" in d or "/wt/S" in d or "seeded_neutral" in d:
+            if "/wt/N" in d or "/wt/B" in d or "/wt/M" in d or "/wt/P" in d or "/wt/Q" in d or "/wt/S" in d or "/wt/T" in d or "seeded_neutral" in d:
                 bad = {p: x for p, x in res.items() if x[0] != 0}
                 print(f"{d}: NEUTRAL {'clean' if not bad else 'FALSE-ALARM'}")
                 for p, x in bad.items():
